@@ -6,6 +6,7 @@ import (
 	"errors"
 	"fmt"
 	"io"
+	"net"
 	"net/http"
 	"strings"
 	"sync"
@@ -71,8 +72,8 @@ func runCache(t *testing.T, s *Scenario) (evs []wire.Event) {
 				case "dns":
 					reversedns.LookupAddrFn = func(ctx context.Context, addr string) ([]string, error) {
 						invoked = true
-						if op.CB == "err" {
-							return nil, errors.New("injected dns failure")
+						if op.CB == "err" { // what a resolver returns for an address without a PTR record
+							return nil, &net.DNSError{Err: "no such host", Name: addr, IsNotFound: true}
 						}
 						return []string{fresh}, nil
 					}
